@@ -63,6 +63,10 @@ def _pre(c0, c1, c2, p1, p2):
 
 
 def _apply(sim, target_id, ncell, touch):
+    return _apply_op(sim, OP, target_id, ncell, touch)
+
+
+def _apply_op(sim, OP, target_id, ncell, touch):
     """returns (result, kind) with result a returns.Result"""
     ent = replace(_entity(target_id, ncell))
     if touch:
@@ -146,3 +150,42 @@ def h_idx_reach(c0: int, c1: int, p1: bool, tgt: int, nc: int, touch: bool) -> b
     target_id = IDS[0] if tgt == 0 else (IDS[1] if tgt == 1 else IDS[2])
     res, ent = _apply(sim, target_id, n, True if touch else False)
     return isinstance(res, Failure)
+
+
+# ---- C16: two consecutive operations; the state between them is kept by the caller and must not change afterwards
+def h_idx2(c1: int, t1: int, n1: int, t2: int, n2: int, o2: int) -> bool:
+    """
+    CASE = entity kind * 4 + first operation (0 add, 1 modify, 2 remove); the second operation (o2), its target and cell are
+    symbolic.  The caller keeps the initial state and the state between the two operations (a saved check-point): both read
+    the same after the second operation, and repeating the second operation from the check-point gives an equal result.
+    Pre-state: two entities, the first at A, the second at A / E (same search cell) / B; cells of the operations from the same three.
+    pre: 0 <= c1 <= 2 and 0 <= t1 <= 2 and 0 <= n1 <= 2 and 0 <= t2 <= 2 and 0 <= n2 <= 2 and 0 <= o2 <= 2
+    post: _
+    """
+    if OP > 2:
+        return True
+    a, b, m1, m2 = CELL_IDX[0], _cell(c1), _cell(n1), _cell(n2)
+    op2 = None
+    for k in range(3):
+        if o2 == k:
+            op2 = k
+    if a is None or b is None or m1 is None or m2 is None or op2 is None:
+        return True
+    sim0 = _pre(a, b, 0, True, False)
+    snap0 = I.snap_sim(sim0)
+    id1 = IDS[0] if t1 == 0 else (IDS[1] if t1 == 1 else IDS[2])
+    id2 = IDS[0] if t2 == 0 else (IDS[1] if t2 == 1 else IDS[2])
+    res1, _ = _apply_op(sim0, OP, id1, m1, False)
+    first_ok = not isinstance(res1, Failure)
+    sim1 = res1.unwrap() if first_ok else sim0
+    snap1 = I.snap_sim(sim1)
+    res2, _ = _apply_op(sim1, op2, id2, m2, False)  # ---- real code, on the kept state
+    res3, _ = _apply_op(sim1, op2, id2, m2, False)  # ---- and once more from the same check-point
+    note("idx2", EK_NAME[EK], OP_NAME[OP], "ok" if first_ok else "failed", OP_NAME[op2], "failed" if isinstance(res2, Failure) else "ok")
+    if not (I.deq(snap0, I.snap_sim(sim0)) and I.deq(snap1, I.snap_sim(sim1))):
+        return False
+    if isinstance(res2, Failure) != isinstance(res3, Failure):
+        return False
+    if not isinstance(res2, Failure):
+        return I.deq(I.snap_sim(res2.unwrap()), I.snap_sim(res3.unwrap()))
+    return True
